@@ -141,3 +141,43 @@ def provider_paths(inputs):
                 return {'violates': True, 'witness_key': 'error-without-fault:provider-path', 'input': {'path': base + tail},
                         'detail': f'POST {tail}: status {code.decode()} without a SOAP fault in the body ({len(payload)} bytes)'}
         return {'violates': False, 'detail': f'{len(tails)} request paths all answered properly'}
+
+
+def open_connection_framing(inputs):
+    """POST requests whose length framing is malformed or absent, sent over a connection the client KEEPS OPEN (as real
+    HTTP clients do): the server must answer with a status line within the time limit - a read to end-of-stream would
+    block the handler thread for as long as the peer stays connected."""
+    import socket
+    import time
+    from urllib.parse import urlsplit
+    from native.loopback import Loop
+    body = b'<x/>'
+    framings = {'negative-content-length': b'Content-Length: -1\r\n', 'large-negative-content-length': b'Content-Length: -2147483649\r\n',
+                'negative-zero-content-length': b'Content-Length: -0\r\n', 'no-content-length': b'',
+                'empty-content-length': b'Content-Length: \r\n', 'content-length-with-sign': b'Content-Length: +4\r\n',
+                'two-content-lengths': b'Content-Length: 4\r\nContent-Length: -1\r\n',
+                'negative-content-length-gzip': b'Content-Encoding: gzip\r\nContent-Length: -1\r\n'}
+    only = (inputs or {}).get('framing')
+    with Loop(with_consumer_mdib=False, n_consumers=0) as lp:
+        url = urlsplit(lp.provider.get_xaddrs()[0])
+        for name, hdr in framings.items():
+            if only and name != only:
+                continue
+            req = (b'POST ' + url.path.encode() + b'/Get HTTP/1.1\r\nHost: x\r\nContent-Type: application/soap+xml\r\n'
+                   + hdr + b'\r\n' + body)
+            s = socket.create_connection((url.hostname, url.port), timeout=4)
+            t0 = time.time()
+            try:
+                s.sendall(req)
+                try:
+                    data = s.recv(4096)
+                except socket.timeout:
+                    return {'violates': True, 'witness_key': f'no-answer-while-connection-open:{name}', 'input': {'framing': name},
+                            'detail': f'POST with {hdr!r}: no status line within {time.time() - t0:.1f} s while the client '
+                                      f'keeps the connection open (the handler reads to end-of-stream)'}
+            finally:
+                s.close()
+            if not data.startswith(b'HTTP/1.'):
+                return {'violates': True, 'witness_key': f'no-status:{name}', 'input': {'framing': name},
+                        'detail': f'POST with {hdr!r}: answer without status line: {data[:60]!r}'}
+    return {'violates': False, 'detail': f'{len(framings)} framings answered while the connection stayed open'}
